@@ -120,6 +120,7 @@ type NodeOpts struct {
 	Config    func(*configs.ConsensusConfig)
 	RecordDB  bool // record durable units (C05)
 	NoKey     bool // observer (no validator key)
+	MemWAL    interface{} // in-memory WAL to reuse across a clean restart (internal)
 	PoolCfg   *tx_pool.TxPoolConfig
 }
 
@@ -149,6 +150,7 @@ type Node struct {
 	DeadWhy string
 	trIdx int // trace cursor of the network
 	observed bool
+	DroppedByValidateBasic int
 }
 
 var logger = func() log.Logger {
@@ -251,7 +253,12 @@ func BuildNode(idx int, g *genesis.Genesis, key *ecdsa.PrivateKey, base kaidb.Da
 		n.WAL.inner = inner
 		n.WAL.path = cfg.WalFile()
 	} else {
-		n.WAL.inner = newMemWAL()
+		if mw, ok := o.MemWAL.(*memWAL); ok && mw != nil {
+			n.mem = mw
+		} else {
+			n.mem = newMemWAL()
+		}
+		n.WAL.inner = n.mem
 	}
 	n.CS.VerifSetWAL(n.WAL)
 	n.CS.VerifSetTicker(n.Tick)
@@ -322,6 +329,11 @@ func (n *Node) Deliver(m consensus.Message, peer string) bool {
 	if n.Dead {
 		return false
 	}
+	// the reactor validates every message before it queues it for the consensus routine (ConsensusManager.Receive)
+	if err := m.ValidateBasic(); err != nil {
+		n.DroppedByValidateBasic++
+		return true
+	}
 	select {
 	case n.CS.VerifPeerQueue() <- consensus.VerifNewMsgInfo(m, p2p.ID(peer)):
 	case <-n.CS.VerifDone():
@@ -337,6 +349,10 @@ func (n *Node) DeliverBatch(ms []consensus.Message, peer string) bool {
 		return false
 	}
 	for _, m := range ms {
+		if err := m.ValidateBasic(); err != nil {
+			n.DroppedByValidateBasic++
+			continue
+		}
 		select {
 		case n.CS.VerifPeerQueue() <- consensus.VerifNewMsgInfo(m, p2p.ID(peer)):
 		case <-n.CS.VerifDone():
